@@ -564,7 +564,7 @@ func (g *gen) function(info *fnInfo, callable []*fnInfo, size int) *Fn {
 		g.intVars = append(g.intVars, vStatic+i)
 	}
 	if info.recursive {
-		body = append([]*S{If(Bin("le", Var(vParam), Int(0)), []*S{g.ret()}, nil)}, body...)
+		body = append(body, If(Bin("le", Var(vParam), Int(0)), []*S{g.ret()}, nil))
 	}
 	if info.nstatics > 0 && g.r.Chance(80) {
 		body = append(body, ExprS(Inc("postinc", vStatic)))
